@@ -26,7 +26,7 @@ class CustomFault(Exception):
     """a user-defined exception type (not a builtin) that must survive the trip to the caller"""
 
 
-EXC = {"ValueError": ValueError, "KeyError": KeyError, "RuntimeError": RuntimeError,
+EXC = {"ValueError": ValueError, "IndexError": IndexError, "RuntimeError": RuntimeError,
        "ZeroDivisionError": ZeroDivisionError, "CustomFault": CustomFault}
 
 
